@@ -28,6 +28,7 @@ contract(
         ("weekly-nonneg", "implies(self.period == 604800 and index >= 0, result >= 0)"),
         ("other", "implies(self.period != 86400 and self.period != 604800, result == trunc(index * self.slot_duration / self.period))"),
     ],
+    replay="limit", probes={"istart": "secs(self.interval_start)", "period": "self.period", "slot": "self.slot_duration", "index": "index"},
     relational=[
         # property: weeklymax counts per ISO week -- two slots of the same ISO week share a counter
         ("weekly-same-week", ["self"],
@@ -86,6 +87,7 @@ contract(
     ],
     calls={"self._idx_to_sb_idx": ("spec", ["self", "i"], "uf_sbidx(self, i)")},
     modifies=["Limit._dirty@self", "$obj:self._scoreboard"],
+    replay="limit", probes={"istart": "secs(self.interval_start)", "period": "self.period", "slot": "self.slot_duration", "index": "index"},
 )
 
 contract(
@@ -105,6 +107,8 @@ contract(
         ("other-resource", "implies(self.resource is not None and self.resource != resource, result)"),
     ],
     calls={"self._idx_to_sb_idx": ("spec", ["self", "i"], "uf_sbidx(self, i)")},
+    replay="limit", probes={"istart": "secs(self.interval_start)", "period": "self.period", "slot": "self.slot_duration",
+                            "index": "some(index)", "value": "self.value", "upper": "self.upper", "upper_arg": "upper"},
 )
 
 # functional view of Limit.ok for an index (what a caller may rely on)
